@@ -1156,6 +1156,7 @@ class Interp:
         evaluate conditions and the element expression once (so calls inside become events)."""
         excs = []
         cur = [state]
+        dropped = []  # states of elements filtered out by an `if` (their effects on the state still happened)
         for g in e.generators:
             nxt = []
             for s in cur:
@@ -1176,6 +1177,7 @@ class Interp:
                                     ts, fs, e3 = self.cond(c, s4, ctx)
                                     excs += e3
                                     n2 += ts
+                                    dropped += fs
                                 ss = n2
                             nxt += ss
             cur = nxt
@@ -1192,7 +1194,7 @@ class Interp:
         for vals, s in results:
             st_out.setdefault(s, []).append(vals)
         if not st_out:
-            st_out = {state: []}
+            st_out = {s: [] for s in dropped} or {state: []}
         for s, vs in st_out.items():
             # comprehension variables do not leak: restore them from the outer state
             s_clean = s
